@@ -16,7 +16,7 @@ RULE = ("programs as in C02 (generators and coroutines that rebind their paramet
         "resumptions, repeated schedules) x sample_rate in {None,1,2,3,10,100} x a drawn seed for the global random "
         "module; oracle: rate None/1 = full C02 oracle, otherwise every logged trace is attributed to a real call and "
         "faithful to it, at most one per call, no residue; plus the traced fraction over >=40,000 plain calls against "
-        "an exact binomial acceptance interval (two-sided error 1e-9). Non-trivial: rate>=2 and a generator/coroutine "
+        "an exact binomial acceptance interval (two-sided error 1e-9), also per function when plain calls alternate with generators resumed 1, 7 or 24 times. Non-trivial: rate>=2 and a generator/coroutine "
         "with >=2 resumptions, or a rate workload; distinct by digest of (program, rate, seed).")
 ASSUMPTIONS = ["the sampler's RNG is the global `random` module, seeded from a Hypothesis-drawn integer",
                "for N=100 only gross errors are distinguishable at this sample size (stated, not hidden)"]
@@ -143,6 +143,42 @@ def rate_test(ctx, rate, ncalls, seed):
                  f"rate {rate}: {lg.n} of {ncalls} calls traced, acceptance interval [{lo}, {hi}] for p=1/{rate}", raise_=False)
 
 
+def _wg(n):
+    for i in range(n):
+        yield i
+
+
+class CountBy(CallTraceLogger):
+    def __init__(self):
+        self.by = {}
+
+    def log(self, t):
+        self.by[t.func.__name__] = self.by.get(t.func.__name__, 0) + 1
+
+
+def rate_test_mixed(ctx, rate, ncalls, resumes, seed):
+    """about one CALL in N per function when plain calls alternate with generators that are resumed many times: a
+    resumption is not a call and must not use up (or add to) anybody's share"""
+    lg = CountBy()
+    random.seed(seed)
+    codes = (_wl.__code__, _wg.__code__)
+    with trace_calls(lg, 0, lambda c: c in codes, rate):
+        for i in range(ncalls):
+            for _ in _wg(resumes):
+                pass
+            _wl(i)
+    spec = ["RATEMIXED", rate, ncalls, resumes, seed]
+    ctx.case(spec, True, ["rate-workload-generators-between-calls:%s" % rate])
+    lo, hi = interval(ncalls, 1.0 / rate)
+    for fn in ("_wl", "_wg"):
+        got = lg.by.get(fn, 0)
+        ctx.extra.setdefault("rate_intervals", [])
+        ctx.extra["rate_intervals"].append({"rate": rate, "calls": ncalls, "traced": got, "accept": [lo, hi], "function": fn, "resumptions_per_generator": resumes})
+        if not lo <= got <= hi:
+            ctx.fail("C18/traced-fraction-outside-binomial-bounds", spec,
+                     f"rate {rate}: {got} of {ncalls} calls of {fn} traced (each generator resumed {resumes} times between two plain calls), acceptance interval [{lo}, {hi}]", raise_=False)
+
+
 _MANY = {}
 
 
@@ -216,6 +252,7 @@ def shard(ctx):
             rate_test(ctx, r, n if r != 100 else n, ctx.seed * 1000 + s)
             if r not in (None, 1):
                 rate_test_many(ctx, r, 400, 25 if q else 100, ctx.seed * 1000 + s + 7)
+                rate_test_mixed(ctx, r, 4000 if q else 20000, [1, 7, 24][(i + ctx.seed) % 3], ctx.seed * 1000 + s + 13)
 
 
 def run(ctx):
@@ -225,6 +262,8 @@ def run(ctx):
 def replay(ctx, case):
     if case[0] == "RATE":
         return rate_test(ctx, case[1], case[2], case[3])
+    if case[0] == "RATEMIXED":
+        return rate_test_mixed(ctx, case[1], case[2], case[3], case[4])
     if case[0] == "RATEMANY":
         return rate_test_many(ctx, case[1], case[2], case[3], case[4])
     sc = tracerun.Scratch("c18-")
